@@ -426,6 +426,20 @@ def handleGenMwcp : List String → String
     | _, _, _ => "bad-op"
   | _ => "bad-op"
 
+/-- `genpeltcp <prev_0> … <prev_{n-1}>` (`-` for the empty array): the definition regenerated from /repo's
+    `get_changepoints` (route T2) on an explicit back-pointer array -/
+def handleGenPeltCp : List String → String
+  | ws =>
+    if !GenL.loop_pelt_changepoints_translated then "untranslated" else
+    let ws := if ws = ["-"] then [] else ws
+    match ws.mapM (·.toNat?) with
+    | some prev =>
+      let arr := prev.toArray
+      match GenL.pelt_changepoints (fun t => arr.getD t 0) arr.size with
+      | some r => toString r
+      | none => "raises"
+    | none => "bad-op"
+
 def handle (line : String) : String :=
   let ws := (line.trimAscii.toString.splitOn " ").filter (· ≠ "")
   match ws with
@@ -440,6 +454,7 @@ def handle (line : String) : String :=
   | "kern" :: rest => handleKern rest
   | "genwhere" :: rest => handleGenWhere rest
   | "genmwcp" :: rest => handleGenMwcp rest
+  | "genpeltcp" :: rest => handleGenPeltCp rest
   | "cutrow" :: rest => handleCutRow rest
   | "statanom" :: rest => handleStatAnom rest
   | "cfg" :: rest => handleCfg rest
